@@ -104,7 +104,7 @@ TB_FOLD = TB_COMMON + [
     "std::collections::HashSet modelled as a duplicate-free list in insertion order (mk_set); set payloads compared up to order",
 ]
 PROPS["C03"] = {
-    "props": [],
+    "props": ["Props/C03.v"],
     "run": ["Run/FoldRun.v"],
     "tables": ["T1", "T2v", "T3", "T3f", "T4"],
     "n_quick": 300,
@@ -113,7 +113,7 @@ PROPS["C03"] = {
     "assumptions": [],
 }
 PROPS["C05F"] = {
-    "props": [],
+    "props": ["Props/C05F.v"],
     "run": ["Run/FoldRun.v"],
     "tables": ["T1", "T3", "T3f", "T4"],
     "n_quick": 400,
